@@ -38,7 +38,7 @@ func runC08(c *Ctx) {
 	// names
 	var lockOpen *ssa.Call
 	for _, cs := range callsIn(fn, "os.OpenFile") {
-		if strings.HasSuffix(describe(cs.Common().Args[0]), ` + ".lock")`) {
+		if strings.HasSuffix(describe(argsOf(cs)[0]), ` + ".lock")`) {
 			lockOpen = cs.(*ssa.Call)
 		}
 	}
@@ -46,7 +46,7 @@ func runC08(c *Ctx) {
 	if lockOpen == nil {
 		return
 	}
-	lockName := lockOpen.Call.Args[0]
+	lockName := argsOf(lockOpen)[0]
 	bo, _ := lockName.(*ssa.BinOp)
 	var newname ssa.Value
 	if bo != nil {
@@ -67,7 +67,7 @@ func runC08(c *Ctx) {
 	// deferred removal: a `defer os.Remove(lockname)` dominated by success, and no return reachable from success without passing it
 	var dfr *ssa.Defer
 	for _, in := range instrsOf(fn) {
-		if d, ok := in.(*ssa.Defer); ok && calleeName(&d.Call) == "os.Remove" && describe(d.Call.Args[0]) == ld {
+		if d, ok := in.(*ssa.Defer); ok && calleeName(&d.Call) == "os.Remove" && describe(argsOf(d)[0]) == ld {
 			dfr = d
 		}
 	}
@@ -94,7 +94,7 @@ func runC08(c *Ctx) {
 	// marker re-check under the lock
 	var stat *ssa.Call
 	for _, cs := range callsIn(fn, "os.Stat") {
-		if describe(cs.Common().Args[0]) == nd {
+		if describe(argsOf(cs)[0]) == nd {
 			stat = cs.(*ssa.Call)
 		}
 	}
@@ -124,7 +124,7 @@ func runC08(c *Ctx) {
 				return "markerStatErr", true
 			}
 		}
-		if c, ok := v.(*ssa.Call); ok && calleeName(&c.Call) == "os.WriteFile" && describe(c.Call.Args[0]) == nd {
+		if c, ok := v.(*ssa.Call); ok && calleeName(&c.Call) == "os.WriteFile" && describe(argsOf(c)[0]) == nd {
 			return "writeErr", true
 		}
 		return "", false
@@ -137,7 +137,7 @@ func runC08(c *Ctx) {
 	wrote := bBool{"isnil(writeErr)"}
 	nRemove := 0
 	for _, cs := range callsIn(fn, "os.Remove") {
-		if cs.Common().Args[0] != ssa.Value(fn.Params[1]) {
+		if argsOf(cs)[0] != ssa.Value(fn.Params[1]) {
 			continue
 		}
 		if _, isDefer := cs.(*ssa.Defer); isDefer {
@@ -161,7 +161,7 @@ func runC08(c *Ctx) {
 	nWrite := 0
 	for _, cs := range callsIn(fn, "os.WriteFile", "os.Create", "os.Rename", "os.Link") {
 		nWrite++
-		a := cs.Common().Args
+		a := argsOf(cs)
 		fb := newFormulaBuilder()
 		fb.namer = namer
 		got := fb.reach(cs.Block())
@@ -174,7 +174,7 @@ func runC08(c *Ctx) {
 	}
 	r.Check("C08.disposal", "uploadReportContents/marker write exists", m.Pos(fn.Pos()), nWrite == 1, fmt.Sprintf("%d marker writes", nWrite))
 	// the posted bytes are the buf parameter (shared with C01.body)
-	r.Check("C08.same-bytes", "uploadReportContents/posted body is buf", m.Pos(post.Pos()), describe(post.Call.Args[2]) == "bytes.NewReader(param:buf)", "got "+describe(post.Call.Args[2]))
+	r.Check("C08.same-bytes", "uploadReportContents/posted body is buf", m.Pos(post.Pos()), describe(argsOf(post)[2]) == "bytes.NewReader(param:buf)", "got "+describe(argsOf(post)[2]))
 	// true result only after the marker path
 	for _, b := range fn.Blocks {
 		ret, ok := b.Instrs[len(b.Instrs)-1].(*ssa.Return)
@@ -218,7 +218,7 @@ func c08Exclusive(c *Ctx, m *Module, rule string) {
 	opens := callsIn(ew, "os.OpenFile")
 	r.Check(rule, "exclusiveWrite/opens once", m.Pos(ew.Pos()), len(opens) == 1, fmt.Sprintf("%d OpenFile calls", len(opens)))
 	for _, cs := range opens {
-		r.Check(rule, "exclusiveWrite/O_CREATE|O_EXCL", m.Pos(cs.Pos()), m.openFlagsHave(cs.Common(), "O_CREATE", "O_EXCL") && cs.Common().Args[0] == ssa.Value(ew.Params[0]),
+		r.Check(rule, "exclusiveWrite/O_CREATE|O_EXCL", m.Pos(cs.Pos()), m.openFlagsHave(cs.Common(), "O_CREATE", "O_EXCL") && argsOf(cs)[0] == ssa.Value(ew.Params[0]),
 			"report files must be created with O_CREATE|O_EXCL under the requested name, so that all uploaders read one and the same file")
 		// the IsExist case returns (false, nil); other errors are returned
 		for _, b := range ew.Blocks {
@@ -249,7 +249,7 @@ func c08Publish(c *Ctx, m *Module) {
 	createsThenWrites := false
 	var open ssa.CallInstruction
 	for _, cs := range callsIn(ew, "os.OpenFile", "os.Create") {
-		if cs.Common().Args[0] == ssa.Value(ew.Params[0]) {
+		if argsOf(cs)[0] == ssa.Value(ew.Params[0]) {
 			open = cs
 		}
 	}
@@ -261,7 +261,7 @@ func c08Publish(c *Ctx, m *Module) {
 		}
 	}
 	for _, cs := range m.callersOf(ew) {
-		name := describe(cs.Common().Args[0])
+		name := describe(argsOf(cs)[0])
 		discoverable := !strings.Contains(name, `"local."`) && strings.Contains(name, `".json"`) && strings.Contains(name, "LocalDir(")
 		key := "exclusiveWrite@" + short(cs.Parent().Name()) + ":"
 		if discoverable {
@@ -279,7 +279,7 @@ func c08Publish(c *Ctx, m *Module) {
 		}
 		for _, e := range directEffects(fn) {
 			if e.Name == "os.WriteFile" || e.Name == "os.Create" || e.Name == "os.OpenFile" || e.Name == "os.Rename" || e.Name == "os.Link" {
-				a := e.Call.Common().Args
+				a := argsOf(e.Call)
 				name := describe(a[len(a)-1])
 				if e.Name != "os.Rename" && e.Name != "os.Link" {
 					name = describe(a[0])
